@@ -11,7 +11,13 @@ PKG_V = "vcr/verifier"
 HARNESS_V = ["vcr/verifier/zz_verif_c11v_test.go"]
 HARNESSES = [(PKG, HARNESS, "c11")]
 
-REQUIRED = ["bit_set_get", "bit_total", "fact_bitstring_arithmetic", "fact_max_index", "fact_min_left_le_validity"]
+REQUIRED = ["entries_injective", "einv_fresh", "bit_set_get", "bit_total", "served_list_signed_and_fresh", "list_signed_in_same_transaction",
+            "set_monotone", "served_bit_never_cleared", "revoke_idempotent", "revoked_forever_network", "revocation_before_credential",
+            "issuer_only", "stored_revocations_accepted", "network_revocation_is_by_issuer", "forged_revocations_rejected",
+            "foreign_prefix_witness", "revoked_forever_local", "revoke_effective", "revoked_forever_remote", "refresh_after_revocation_pins",
+            "cache_sound", "status_only_from_named_list", "update_refuses_other_list", "fact_bitstring_arithmetic", "fact_constants",
+            "fact_env_ok", "fact_entry_structure", "fact_revoke_and_credential_structure", "fact_status_verifier_structure",
+            "fact_register_and_verify_order"]
 
 ENTRY_RE = re.compile(r"(n\d+/\S+/\d+) (\d+) wf=(\w+)")
 
